@@ -597,6 +597,22 @@ func TestVerif_C07(t *testing.T) {
 			bases = append(bases, vfBaseFile{"synth-sb2-compact-datasets", img, tr, nil})
 		}
 	}
+	// synthetic base: the same file with the root header continued twice (version 2
+	// continuation blocks; the small reference files that have them are passed over as too
+	// costly in the quick tier)
+	{
+		img := vfContinuedFile()
+		p := filepath.Join(dir, "continued.h5")
+		os.WriteFile(p, img, 0o644)
+		tr, err := vfDumpFile(p)
+		ok := err == nil && tr != nil && tr.Get("/c") != nil && tr.Get("/s") != nil && tr.Get("/t") != nil &&
+			tr.Get("/t").Read != "ERR" && tr.Get("/s").Strings != "ERR"
+		if !ok {
+			r.Fail("synthetic-continued/intact-file-not-read", map[string]any{"error": fmt.Sprint(err), "tree": fmt.Sprint(tr)})
+		} else {
+			bases = append(bases, vfBaseFile{"synth-sb2-header-continued-twice", img, tr, nil})
+		}
+	}
 	// synthetic base: a chain of nested old-style groups as the reference library lays them
 	// out (cached symbol-table entries); a deviation near the bottom must not cost more than
 	// one near the top (work that multiplies per nesting level becomes a hang at this depth)
@@ -1157,7 +1173,14 @@ func vfIntersectRanges(a, b [][2]int) [][2]int {
 
 // vfCompactFile builds a superblock-2 file with version 2 object headers: root group (two
 // link messages) -> "c": int32[6], compact layout; "s": 4-byte fixed strings [2], compact.
-func vfCompactFile() []byte {
+func vfCompactFile() []byte { return vfCompactFileOpt(false) }
+
+// vfContinuedFile is the same file with the root group's header continued twice: chunk 0
+// (link "c", continuation) -> OCHK (link "s", continuation) -> OCHK (link "t" to the first
+// dataset). One continuation can then be made to name a block another has already led to.
+func vfContinuedFile() []byte { return vfCompactFileOpt(true) }
+
+func vfCompactFileOpt(continued bool) []byte {
 	le := binary.LittleEndian
 	msg := func(typ byte, body []byte) []byte {
 		h := []byte{typ, 0, 0, 0}
@@ -1208,10 +1231,41 @@ func vfCompactFile() []byte {
 		return append(l, a...)
 	}
 	const rootAddr = 48
-	rootLen := len(pad8(ohdr(msg(6, link("c", 0)), msg(6, link("s", 0)))))
-	cAddr := uint64(rootAddr + rootLen)
-	sAddr := cAddr + uint64(len(dsC))
-	root := pad8(ohdr(msg(6, link("c", cAddr)), msg(6, link("s", sAddr))))
+	var root []byte
+	var cAddr, sAddr uint64
+	if continued {
+		cont := func(addr, size uint64) []byte {
+			c := make([]byte, 16)
+			le.PutUint64(c, addr)
+			le.PutUint64(c[8:], size)
+			return c
+		}
+		ochk := func(msgs ...[]byte) []byte {
+			out := []byte("OCHK")
+			for _, m := range msgs {
+				out = append(out, m...)
+			}
+			return append(out, 0, 0, 0, 0)
+		}
+		build := func(k1, k2, c, s uint64) (r0, r1, r2 []byte) {
+			r2 = ochk(msg(6, link("t", c)))
+			r1 = ochk(msg(6, link("s", s)), msg(0x10, cont(k2, uint64(len(r2)))))
+			r0 = pad8(ohdr(msg(6, link("c", c)), msg(0x10, cont(k1, uint64(len(r1))))))
+			return
+		}
+		r0, r1, r2 := build(0, 0, 0, 0)
+		k1 := uint64(rootAddr + len(r0))
+		k2 := k1 + uint64(len(pad8(r1)))
+		cAddr = k2 + uint64(len(pad8(r2)))
+		sAddr = cAddr + uint64(len(dsC))
+		r0, r1, r2 = build(k1, k2, cAddr, sAddr)
+		root = append(append(r0, pad8(r1)...), pad8(r2)...)
+	} else {
+		rootLen := len(pad8(ohdr(msg(6, link("c", 0)), msg(6, link("s", 0)))))
+		cAddr = uint64(rootAddr + rootLen)
+		sAddr = cAddr + uint64(len(dsC))
+		root = pad8(ohdr(msg(6, link("c", cAddr)), msg(6, link("s", sAddr))))
+	}
 	sb := make([]byte, 48)
 	copy(sb, "\x89HDF\r\n\x1a\n")
 	sb[8], sb[9], sb[10] = 2, 8, 8
